@@ -2426,6 +2426,14 @@ class PyCdlib:
         if not found_file_entry.is_file():
             raise pycdlibexception.PyCdlibInvalidInput('Can only write out a file')
 
+        if self.eltorito_boot_catalog is not None:
+            for rec in self.eltorito_boot_catalog.dirrecords:
+                if id(rec) == id(found_file_entry):
+                    recdata = self.eltorito_boot_catalog.record()
+                    outfp.write(recdata)
+                    utils.zero_pad(outfp, len(recdata), self.logical_block_size)
+                    return
+
         if found_file_entry.inode is None:
             raise pycdlibexception.PyCdlibInvalidInput('Cannot write out an entry without data')
 
